@@ -2,6 +2,7 @@ import LoraVerif.Model.Aes
 import LoraVerif.Lemmas.C02Lemmas
 import LoraVerif.Lemmas.C02JoinLemmas
 import LoraVerif.Lemmas.C02Vectors
+import LoraVerif.Lemmas.AesLemmas
 import LoraVerif.Props.C01
 /-!
 # C02 — received frames are authenticated and decoded exactly per spec, else untouched
@@ -736,6 +737,14 @@ theorem join_accept_round_trip (c : Cipher) (hc : LawfulCipher c) (d : JoinAccep
       simp only [List.cons_append] at hview
       rw [hview]
 
+/-- The JoinAccept round trip for the concrete AES-128 of `Model/Aes.lean` — no hypothesis left:
+`LawfulCipher aes` is a theorem (`Lora.aes_lawful`). -/
+theorem join_accept_round_trip_aes (d : JoinAccept) (buf : Bytes) (k : Key) (frame : Bytes)
+    (hb : d.buildInto buf ⟨aes, k⟩ = .ok frame) :
+    ∃ clear mic, joinAcceptCheckMicAndDecryptInPlace frame ⟨aes, k⟩ = (.ok clear, clear)
+      ∧ (joinAcceptView clear).map JoinAcceptView.toSpec = .ok (jaExpected d.toSpec mic) :=
+  join_accept_round_trip aes aes_lawful d buf k frame hb
+
 /-- **C02 (JoinRequest round trip).** Parsing a built JoinRequest returns the EUIs and nonce it was
 built from, and its MIC validates under the same key. -/
 theorem join_request_round_trip (c : Cipher) (d : JoinRequest) (buf : Bytes) (k : Key) (frame : Bytes)
@@ -867,10 +876,9 @@ example : ∃ v, Spec.decodeJoinAccept aes appKey [0x20, 0x49, 0x3e, 0xeb, 0x51,
     · simp at h1
     · exact ⟨v, by rw [h2]⟩
 
-/-- the AES of `Model/Aes.lean` is a cipher of the kind `join_accept_round_trip` asks for on the
-known-answer blocks (FIPS-197 C.1: `Lemmas/AesKat.lean`); for all blocks the two laws are checked on
-every run against the `aes` crate (ops `C01 aes_enc` / `aes_dec`) -/
-example : ∃ c : Cipher, LawfulCipher c := ⟨⟨fun _ x => x, fun _ x => x, fun _ _ => Block.zero⟩, ⟨fun _ _ => rfl, fun _ _ => rfl⟩⟩
+/-- the hypothesis of `join_accept_round_trip` is satisfiable — by the very cipher the driver runs:
+`Lemmas/AesLemmas.lean` proves that the Lean AES-128 decrypts what it encrypts and vice versa -/
+example : LawfulCipher aes := aes_lawful
 
 end Vectors
 
@@ -893,6 +901,8 @@ end Vectors
 #print axioms derive_session_key_eq_spec
 #print axioms parse_top_eq_spec
 #print axioms join_accept_round_trip
+#print axioms join_accept_round_trip_aes
+#print axioms Lora.aes_lawful
 #print axioms join_request_round_trip
 
 end C02
